@@ -55,11 +55,6 @@ theorem isometry2 {G : G2} (h : G.ColIsometry) (u v u' v' : GQ) :
       + ((u.re * v'.re + u.im * v'.im) - (v.re * u'.re + v.im * u'.im)) * E4
       + (v.im * v'.re - v.re * v'.im) * E2
 
-/-- `Σ_{x < n} f x` over the rationals -/
-def rsum : Nat → (Nat → Rat) → Rat
-  | 0, _ => 0
-  | n + 1, f => rsum n f + f n
-
 theorem rsum_diff (a b : Nat) (hab : a ≠ b) (f g : Nat → Rat) : ∀ n,
     (∀ x, x < n → x ≠ a → x ≠ b → f x = g x) →
     rsum n f - rsum n g = (if a < n then f a - g a else 0) + (if b < n then f b - g b else 0) := by
@@ -100,10 +95,6 @@ theorem rsum_eq_of_except2 (a b n : Nat) (hab : a ≠ b) (ha : a < n) (hb : b < 
   have := rsum_diff a b hab f g n h
   simp only [ha, hb, if_true] at this
   linarith
-
-/-- inner product of rows `i`, `i'` (first `n` columns), as its real and imaginary parts -/
-def rowDotRe (M : Mat) (n i i' : Nat) : Rat := rsum n fun x => (M.get i x * (M.get i' x).conj).re
-def rowDotIm (M : Mat) (n i i' : Nat) : Rat := rsum n fun x => (M.get i x * (M.get i' x).conj).im
 
 /-- a column rotation by a column-isometric `G` preserves all inner products of rows -/
 theorem rotateCols_rowDot {M : Mat} {m n : Nat} (hM : Rect M m n) {G : G2} (hG : G.ColIsometry)
